@@ -195,6 +195,12 @@ pub(super) fn read_fleet(api_problem: &ApiProblem, props: &ProblemProperties, co
 /// Creates a matrices using approximation.
 pub fn create_approx_matrices(problem: &ApiProblem) -> Vec<Matrix> {
     const DEFAULT_SPEED: Float = 10.;
+
+    // NOTE: nothing to approximate without profiles, an empty profile collection is reported by validation
+    if problem.fleet.profiles.is_empty() {
+        return vec![];
+    }
+
     // get each speed value once
     let speeds = problem
         .fleet
